@@ -80,10 +80,10 @@ BATTERY_FAR = (9999, 12, 31)        # added for every fourth process (a conversi
 
 
 # ------------------------------------------------------------------ watchdog
-CPU_LIMIT = 10                      # CPU seconds for one call of the code under test (a conversion takes ~1 ms)
+CPU_LIMIT = 5                       # CPU seconds for one call of the code under test (a conversion takes ~1 ms)
 WALL_LIMITS = (240, 1200)           # wall seconds; a wall time-out is tried once more before it counts
 CHILD_CPU = 150                     # hard CPU limit of one history process (for loops no signal handler can leave)
-HANG_BUDGET = 3                     # after that many calls without a result a process runs no further jobs
+HANG_BUDGET = 2                     # after that many calls without a result a process runs no further jobs
 _HANGS = 0
 
 
